@@ -20,7 +20,7 @@ def gen(seed, tier):
                 for el, en in (('int', 'int'), ('const int', 'cint')):
                     probes.append(('descMds<decltype(md::mdspan(std::declval<%s*>(), %s))>()' % (el, args), 'elem=%s idx=u64 pat=%s lay=right acc=def' % (en, dpat(n)), 'c17 ctad mdsints n=%d' % n))
     for n in range(0, 5):
-        for st in ('int', 'size_t', 'short'):
+        for st in ('int', 'size_t', 'short', 'long long', 'unsigned long long', 'signed char', 'unsigned'):
             probes.append(('descMds<decltype(md::mdspan(std::declval<int*>(), std::declval<const std::array<%s, %d>&>()))>()' % (st, n), 'elem=int idx=u64 pat=%s lay=right acc=def' % dpat(n), 'c17 ctad mdsarray n=%d' % n))
             probes.append(('descMds<decltype(md::mdspan(std::declval<int*>(), std::declval<std::span<%s, %d>>()))>()' % (st, n), 'elem=int idx=u64 pat=%s lay=right acc=def' % dpat(n), 'c17 ctad mdsarray n=%d' % n))
     probes.append(('descMds<decltype(md::mdspan(std::declval<int*>()))>()', 'elem=int idx=u64 pat=- lay=right acc=def', 'c17 ctad mdsptr'))
